@@ -179,8 +179,9 @@ theorem tab_corner (hv : ValidShape (r :: srest)) (hidx : SInc (i0 :: np0))
       · obtain ⟨j, hj, rfl⟩ := List.getElem_of_mem hi0'
         have hlt := colChain_head_lt (x :: row) rest ht.colInc hpw row' hr' j hj
         have hle : row'.length ≤ (x :: row).length := by
-          have := (List.pairwise_cons.1 (by simpa using hpw)).1 row'.length (List.mem_map.2 ⟨row', hr', rfl⟩)
-          simpa using this
+          have := hpw
+          simp only [List.map_cons, List.pairwise_cons] at this
+          exact this.1 row'.length (List.mem_map.2 ⟨row', hr', rfl⟩)
         have h0 := sinc_getD_le hR0 (Nat.zero_le j) (by omega)
         rw [getD_eq_getElem' _ hj] at hlt
         simp only [List.getD_cons_zero] at h0
@@ -208,8 +209,9 @@ theorem tab_upper (hv : ValidShape (r :: srest)) (hidx : SInc (i0 :: np0)) (hN :
       rwa [getD_eq_getElem' _ hk'] at this
     · have hlt := colChain_head_lt (i0 :: row) rest ht.colInc hpw row' hr' (c + k) hk'
       have hle : row'.length ≤ (i0 :: row).length := by
-        have := (List.pairwise_cons.1 (by simpa using hpw)).1 row'.length (List.mem_map.2 ⟨row', hr', rfl⟩)
-        simpa using this
+        have := hpw
+        simp only [List.map_cons, List.pairwise_cons] at this
+        exact this.1 row'.length (List.mem_map.2 ⟨row', hr', rfl⟩)
       have h0 := sinc_getD_le hR0 (Nat.le_add_right c k) (by omega : c + k < (i0 :: row).length)
       rw [getD_eq_getElem' _ hk'] at hlt
       omega
@@ -227,7 +229,7 @@ theorem tab_upper (hv : ValidShape (r :: srest)) (hidx : SInc (i0 :: np0)) (hN :
       _ ≤ row'.countP (fun e => decide (v ≤ e)) := (List.drop_sublist c row').countP_le
   rw [ht.perm.countP_eq] at hcount
   have hsplit := List.length_eq_countP_add_countP (fun e => decide (e < v)) (l := i0 :: np0)
-  have hneg : (i0 :: np0).countP (fun e => !decide (e < v)) = (i0 :: np0).countP (fun e => decide (v ≤ e)) := by
+  have hneg : (i0 :: np0).countP (fun a => decide ¬decide (a < v) = true) = (i0 :: np0).countP (fun e => decide (v ≤ e)) := by
     apply List.countP_congr; intro e _; simp
   have hi0v : i0 < v := by
     have := sinc_getElem_lt hR0 (show 0 < c by omega) hcl
